@@ -37,7 +37,10 @@ func (c *Calcium) Send(ctx context.Context, opts *types.SendOptions) (chan *type
 						return nil
 					}); err != nil {
 						logger.Error(ctx, err)
-						ch <- &types.SendMessage{ID: ID, Error: err}
+						// the workload could not be locked or found: still one result per file
+						for _, file := range opts.Files {
+							ch <- &types.SendMessage{ID: ID, Path: file.Filename, Error: err}
+						}
 					}
 				}
 			}(ID))
